@@ -305,9 +305,9 @@ def hostile(seed, n):
 
 class C04(Check):
     rule = DOC_RULE + "; plus hostile inputs: nesting hundreds deep, every construct left unterminated at end of input, invalid UTF-8, NUL and CR runs"
-    obligations = [("main", "InlineFuel", "C04_parseInlines_all_fuels"), ("main", "InlineFuel", "C04_parseInlines_fuel_independent"), ("main", "InlineFuel", "C04_processEmphasis_adequate"), ("main", "InlineFuel", "C04_parseInlines_all_fuels_empty"), ("main", "EntriesOK", "parseBlocks_entries_ok_partial"), ("main", "Uncond", "C04_block_layer_total"), ("main", "Total", "parseBlocks_total"), ("main", "NoPanicAll", "parseBlocks_no_panic"), ("main", "RecBounds", "atx_bounds"), ("main", "CursorX", "consume_all"),
+    obligations = [("main", "InlineFuelAll", "parseFull_total"), ("main", "InlineFuelAll", "parseFull_fuel_adequate"), ("main", "InlineFuelAll", "parseFullG_eq"), ("main", "InlineFuel", "C04_parseInlines_all_fuels"), ("main", "InlineFuel", "C04_parseInlines_fuel_independent"), ("main", "InlineFuel", "C04_processEmphasis_adequate"), ("main", "InlineFuel", "C04_parseInlines_all_fuels_empty"), ("main", "EntriesOK", "parseBlocks_entries_ok_partial"), ("main", "Uncond", "C04_block_layer_total"), ("main", "Total", "parseBlocks_total"), ("main", "NoPanicAll", "parseBlocks_no_panic"), ("main", "RecBounds", "atx_bounds"), ("main", "CursorX", "consume_all"),
                    ("walk", "W2P", "run_refines_spec"), ("stream", "ReaderProof", "readline_sim"), ("misc", "Sticky", "C20_healthy")]
-    assumptions = ["partial: proved: the block layer is total for every input (Total.parseBlocks_total: parseBlocks never reports a panic site and never runs out of any of its fuels: outer loop, line loop, descendOpenBlocks, openNewBlocks, codePoint reader), Walk terminates with fuel 2*size+1, readline terminates under any schedule, the renderer/formatter models are total by construction; fuel sufficiency of the inline parser is observed (the model never reports a fuel code on any case) rather than proved",
+    assumptions = ["partial: proved: the block layer is total for every input (Total.parseBlocks_total: parseBlocks never reports a panic site and never runs out of any of its fuels: outer loop, line loop, descendOpenBlocks, openNewBlocks, codePoint reader), Walk terminates with fuel 2*size+1, readline terminates under any schedule, the renderer/formatter models are total by construction; the inline parser is total as well: for every input, every leaf the inline parser runs on and every matcher, running it with ANY fuels above explicit linear bounds gives the model's result, i.e. none of its fuels (reader loops, label normalisation, process-emphasis, tokeniser loop, entry loop, tree walks of Extract/Rewrite) is ever exhausted (InlineFuelAll.parseFull_fuel_adequate, parseFullG_eq, parseFull_total); so on the model the whole parse is total for every input; what remains observed rather than proved is that the Go loops terminate the way the fuelled model loops do (the tie), under the 20 s watchdog",
                    "'does not loop forever' on the implementation is a 20 s watchdog per case"]
 
     def jobs(self, seed, tier):
